@@ -153,8 +153,7 @@ func runC16(tier string) int {
 	if tier == "thorough" {
 		maxIns = 3
 	}
-	const path = `dir\sub/f.pory`
-	wantPath := strings.ReplaceAll(path, `\`, `\\`)
+	paths := []string{`dir\sub/f.pory`, `other/g.pory`, `h.pory`}
 	for pi := range c16Corpus {
 		prog := c16Corpus[pi]
 		toks := c16Parse(prog.text)
@@ -199,6 +198,9 @@ func runC16(tier string) int {
 		}
 		done := r.Parallel(uint64(len(layouts)), func(w int, li uint64) {
 			lay := layouts[li]
+			// the path changes from one compilation to the next, so a path remembered from an earlier compilation shows
+			path := paths[li%uint64(len(paths))]
+			wantPath := strings.ReplaceAll(path, `\`, `\\`)
 			src, ext, rawLine, nLines := c16Render(toks, lay.base, lay.extra)
 			on, off, nopath := opts, opts, opts
 			on.LineMarkers, on.Path = true, path
@@ -210,8 +212,14 @@ func runC16(tier string) int {
 				r.Add("nontrivial", 1)
 			}
 			fail := func(sig, what string) {
-				r.Report(harness.Violation{Sig: sig, Summary: fmt.Sprintf("program %s: %s\n  source: %q", prog.name, what, clip(src, 700)), Replay: map[string]interface{}{"program": prog.name, "source": src, "path": path, "problem": what, "output": ro.Out},
-					Recheck: func() bool { return comp.Compile(src, on).Out == ro.Out }})
+				r.Report(harness.Violation{Sig: sig, Summary: fmt.Sprintf("program %s: %s\n  source: %q", prog.name, what, clip(src, 700)), Replay: map[string]interface{}{"program": prog.name, "source": src, "path": path, "earlier_paths_in_this_process": paths, "problem": what, "output": ro.Out},
+					Recheck: func() bool {
+						// replay a two-step history: another path first, then this one
+						prev := on
+						prev.Path = paths[(li+1)%uint64(len(paths))]
+						comp.Compile(src, prev)
+						return comp.Compile(src, on).Out == ro.Out
+					}})
 			}
 			if ro.Err != nil || rf.Err != nil || rn.Err != nil || ro.Panic+rf.Panic+rn.Panic != "" {
 				fail("C16:rejected:"+firstWords(fmt.Sprint(ro.Err), 5), fmt.Sprintf("layout variant rejected: %v %v %v %s", ro.Err, rf.Err, rn.Err, firstLine(ro.Panic+rf.Panic+rn.Panic)))
